@@ -39,7 +39,9 @@ namespace awkward {
         .append(" pause");
     }
     // Remove the last pause
-    vm_func_.erase(vm_func_.end() - 6, vm_func_.end());
+    if (!contents_.empty()) {
+      vm_func_.erase(vm_func_.end() - 6, vm_func_.end());
+    }
     vm_func_.append("\n;\n\n");
   }
 
